@@ -31,11 +31,11 @@ def gen(run):
 def build_harness(run):
     if getattr(run, "c19_exe", None):
         return run.c19_exe
-    sync = cbuild.firmware_obj(run, "layer1/sync.c", "sync")
-    gu = cbuild.libosmocore_obj(run, "gsm/gsm_utils.c", "gsm_utils")
+    sync = cbuild.firmware_obj(run, "layer1/sync.c", "sync", extra_flags=cbuild.CONSOLE_FLAGS)
+    gu = cbuild.libosmocore_obj(run, "gsm/gsm_utils.c", "gsm_utils", extra_flags=cbuild.CONSOLE_FLAGS)
     h = cbuild.obj(run, os.path.join(vf.ROOT, "harness/c/c19_harness.c"), "c19_harness",
                    includes=[cbuild.LIBOSMO_INC])
-    run.c19_exe = cbuild.link(run, [h, sync, gu], "c19_harness.bin", ignore_unresolved=True)
+    run.c19_exe = cbuild.link(run, [h, sync, gu, cbuild.console_sink(run)], "c19_harness.bin", ignore_unresolved=True)
     return run.c19_exe
 
 
@@ -60,6 +60,26 @@ def interesting_fns(run, n_rand):
     return sorted(s)
 
 
+def in_domain(req):
+    """inside the property's quantifier: frame numbers of the hyperframe, (T1, T2, T3) that decompose one, a running time
+    that is the decomposition of its frame number, deltas 1..GSM_MAX_FN-1.  uint32 frame numbers beyond the hyperframe,
+    arbitrary struct contents and deltas of a hyperframe or more are still run and compared (the model claims the C widths
+    there too), but a difference is listed in the evidence and is not a broken tie."""
+    t = req.split()
+    try:
+        v = [int(x) for x in t[1:]]
+        if t[0] in ("gt.fn2time", "gt.py"):
+            return 0 <= v[0] < H
+        if t[0] == "gt.time2fn":
+            return v[0] < 2048 and v[1] < 26 and v[2] < 51      # 26 and 51 are coprime: every such triple is the time of a frame
+        if t[0] == "gt.inc":
+            fn, t1, t2, t3, tc, d = v
+            return 0 <= fn < H and (t1, t2, t3, tc) == tuple(spec(fn)) and 1 <= d < H
+    except (ValueError, IndexError):
+        return False
+    return True
+
+
 def correspond(run, corr):
     exe = build_harness(run)
     run.drift["sync.c:l1s_time_inc"] = vf.src_hash_c(os.path.join(vf.REPO, "src/target/firmware/layer1/sync.c"), ["l1s_time_inc"])
@@ -82,14 +102,14 @@ def correspond(run, corr):
                     run.rng.choice([1, 1, run.rng.randrange(0, 2 ** 32)])))
     impl = vf.run_lines([exe], reqs)
     model = vf.run_driver(reqs)
-    corr.compare(reqs, impl, model)
+    corr.compare(reqs, impl, model, in_domain=in_domain)
     for r, a in zip(reqs, impl):
         corr.count(r, r.split()[0])
     # python side
     preqs = ["gt.py %d" % fn for fn in fns]
     pimpl = vf.run_lines([vf.PY, os.path.join(vf.ROOT, "harness/py/gsmtime_harness.py"), vf.TRX], preqs)
     pmodel = vf.run_driver(preqs)
-    corr.compare(preqs, pimpl, pmodel)
+    corr.compare(preqs, pimpl, pmodel, in_domain=in_domain)
     for r in preqs:
         corr.count(r, "gt.py")
     if run.thorough:
